@@ -282,3 +282,6 @@ UNITS = [
     Unit('ThermochemIncomplete.update[self: H=%d S=%d range=%d]' % SHAPES[ai], (INC, 'ThermochemIncomplete.update'),
          u_update_shape(ai), replay_update) for ai in range(8)
 ]
+
+from . import standins
+STANDINS = [standins.c13_merges]
